@@ -192,6 +192,28 @@ func splitOffset(e *Engine, idx *Form) (m int64, off *Atom, ok bool) {
 	return m, off, off != nil
 }
 
+// workerCountOK: the worker count handed to RunWorkers is the caller's
+// parallelism, or — for a capped/adjusted count — at least 1 on this path
+// whenever parallelism >= 1 (rule S1 proves the row partition for a symbolic
+// worker count, so any positive count converts every pixel exactly once).
+func workerCountOK(e *Engine, ws workerSite) bool {
+	if valKey(ws.ParArg) == "1*parallelism" {
+		return true
+	}
+	n, ok := ws.ParArg.(*Form)
+	if !ok {
+		return false
+	}
+	facts := []*BoolVal{{Op: ">=", A: formAtom("parallelism"), B: formInt(1)}}
+	for _, c := range ws.Conds {
+		cc := *c
+		cc.Src, cc.Exact = nil, nil
+		facts = append(facts, &cc)
+	}
+	good, _ := e.proveGE0(n.Sub(formInt(1)), e.factsOf(facts))
+	return good
+}
+
 // emptyRectPath reports whether the path conditions say that <img>.Bounds()
 // is empty: Bounds().Empty() held, or an exact comparison implies
 // Max.X <= Min.X or Max.Y <= Min.Y.
@@ -283,7 +305,7 @@ func runC10(p *Program, r *Report) {
 		e := ws.E
 		cf := factsOf(ws)
 		// parallelism forwarded
-		r.Check(valKey(ws.ParArg) == "1*parallelism", "C10.S4", key+" parallelism", ws.Pos, "RunWorkers receives the caller's parallelism", "RunWorkers receives "+valKey(ws.ParArg))
+		r.Check(workerCountOK(e, ws), "C10.S4", key+" parallelism", ws.Pos, "RunWorkers receives the caller's parallelism, or a count the path shows to be at least 1 whenever parallelism is (the partition holds for every worker count)", "RunWorkers receives "+valKey(ws.ParArg)+", which is neither the caller's parallelism nor provably >= 1 for parallelism >= 1: with no worker no pixel is converted")
 		// the source rectangle = src.Bounds()
 		srcB := appAgg(e, "invoke:Bounds", "src")
 		dstB := appAgg(e, "invoke:Bounds", "dst")
@@ -698,9 +720,16 @@ func lastPositiveType(cs []*BoolVal) string {
 	if len(cs) == 0 {
 		return ""
 	}
-	k := cs[len(cs)-1].Key()
-	if strings.HasPrefix(k, "istype(img,") && strings.HasSuffix(k, ")") {
-		return strings.TrimSuffix(strings.TrimPrefix(k, "istype(img,"), ")")
+	// the last decision about the image's dynamic type (later conditions may be about numbers,
+	// e.g. a capped worker count)
+	for i := len(cs) - 1; i >= 0; i-- {
+		k := cs[i].Key()
+		if strings.HasPrefix(k, "istype(img,") && strings.HasSuffix(k, ")") {
+			return strings.TrimSuffix(strings.TrimPrefix(k, "istype(img,"), ")")
+		}
+		if strings.HasPrefix(k, "!(istype(img,") {
+			return ""
+		}
 	}
 	return ""
 }
@@ -751,6 +780,9 @@ func checkConvertArm(p *Program, r *Report, key, arm, target string, ws workerSi
 		if cf.Loops[1].Limit != nil && cf.Loops[1].Limit.Equal(maxX.Sub(minX)) {
 			shX = minX
 		}
+	}
+	if ws.CaseIdx == 0 {
+		r.Check(workerCountOK(e, ws), "C15.partition", key+" worker count", ws.Pos, "RunWorkers receives the caller's parallelism, or a count the path shows to be at least 1 whenever parallelism is", "RunWorkers receives "+valKey(ws.ParArg)+", which is neither the caller's parallelism nor provably >= 1 for parallelism >= 1: with no worker no pixel is converted")
 	}
 	rowK, colK, ok := checkStripes(r, "C15.partition", key+" stripes", ws.Pos, ws, allSites, inRect, "output.Rect (= input.Rect)", shX, shY)
 	if !ok {
@@ -942,6 +974,71 @@ func checkConvertArm(p *Program, r *Report, key, arm, target string, ws workerSi
 			}
 		}
 		r.Check(good, rule, key, ws.Pos, "output pixel (j,i) = NRGBA{YCbCrToRGB(Y,Cb,Cr), 255} (SetNRGBA or the four Pix bytes)", why)
+	case "*image.Gray→*image.NRGBA", "*image.Gray→*image.RGBA":
+		// draw.Src of a grey pixel into (N)RGBA is {Y, Y, Y, 255} (color.Gray.RGBA is opaque with r=g=b)
+		tname := strings.TrimPrefix(target, "*image.")
+		var yv Val
+		good, why := true, ""
+		for _, ev := range cf.Calls {
+			switch {
+			case strings.HasSuffix(ev.Fn, "(*image.Gray).GrayAt"):
+				aa := realArgs(ev)
+				if len(aa) == 3 && valKey(aa[0]) == "img" && isJI(aa, 1) {
+					if px, ok := ev.Res.(*Agg); ok && len(px.Elems) == 1 {
+						yv = px.Elems[0]
+					}
+				} else {
+					good, why = false, "GrayAt is not called at (j,i) of the input"
+				}
+			case strings.HasSuffix(ev.Fn, ".PixOffset"), strings.HasSuffix(ev.Fn, ").Set"+tname):
+			default:
+				good, why = false, "unexpected call "+ev.Fn
+			}
+		}
+		if yv == nil && good {
+			// the level read directly: input.Pix[PixOffset(j,i)] (one byte per pixel)
+			if wantIn, okI := e.pixOffsetForm(ws.ParentSt, &Opaque{Key: "img"}, imagePtrType(p, "Gray"), 1, j, i); okI {
+				yv = e.A.App("index", types.Typ[types.Uint8], &Opaque{Key: "img.Pix"}, wantIn)
+			}
+		}
+		if good && yv == nil {
+			good, why = false, "the grey level of pixel (j,i) is not read (GrayAt(j,i).Y or Pix[PixOffset(j,i)])"
+		}
+		if good {
+			wantV := []string{valKey(yv), valKey(yv), valKey(yv), "255"}
+			set := find(").Set" + tname)
+			switch {
+			case set != nil && len(cf.Stores) == 0:
+				sa := realArgs(*set)
+				col, _ := sa[3].(*Agg)
+				good = valKey(sa[0]) == out && isJI(sa, 1) && col != nil && len(col.Elems) == 4
+				for k := 0; good && k < 4; k++ {
+					good = valKey(col.Elems[k]) == wantV[k]
+				}
+				why = "the colour set at (j,i) must be {Y, Y, Y, 255}; got " + trunc(valKey(sa[3]), 160)
+			case set == nil && len(cf.Stores) == 4:
+				wantOut, okW := e.pixOffsetForm(ws.ParentSt, newEv.Res, imagePtrType(p, tname), 4, j, i)
+				outPix := ""
+				if op, ok := newEv.Res.(*Ptr); ok && op.Cell != nil {
+					outPix = fmt.Sprintf("newimg#%d.Pix", op.Cell.ID)
+				}
+				seen := map[int64]bool{}
+				good = okW
+				for _, sv := range cf.Stores {
+					ptr := sv.Recv.(*Ptr)
+					idx, _ := sv.Args[3].(*Form)
+					m, isC := idx.Sub(wantOut).ConstInt()
+					if ptr.Base == nil || ptr.Base.Key != outPix || !isC || m < 0 || m > 3 || seen[m] || valKey(sv.Args[4]) != wantV[m] {
+						good, why = false, "the four bytes written are not {Y, Y, Y, 255} at output.Pix[PixOffset(j,i)+0..3]: "+trunc(valKey(sv.Args[4]), 100)
+						break
+					}
+					seen[m] = true
+				}
+			default:
+				good, why = false, "the pixel is not written exactly once as {Y, Y, Y, 255}"
+			}
+		}
+		r.Check(good, rule, key, ws.Pos, "output pixel (j,i) = {Y, Y, Y, 255} of the input's grey level at (j,i)", why)
 	default:
 		r.Undecide(rule, key, ws.Pos, "conversion arm "+arm+"→"+target+" is not in the checker's table of colour-model conversions")
 	}
